@@ -362,7 +362,8 @@ class World:
                 raise Unexpected("state-point-assignment-ignores-type-only-difference" if old == new
                                  else "state-point-change-has-no-effect",
                                  f"{op}: state point {old} -> {new} requested, handle still reports id {job.id} "
-                                 f"and state point {job.statepoint()!r}", op=name)
+                                 f"and state point {job.statepoint()!r}", op=name,
+                                 route="whole" if name in ("sp_assign", "sp_assign_typed", "update_sp") else "item")
             if new_id != jid:
                 self._invalidate_others(grp, proj, jid, revivable=mj is not None)
                 if mj is not None:
